@@ -395,6 +395,9 @@ func init() {
 			if e >= 0 && e < len(all)*len(all) {
 				return c05EqVia(all[e/len(all)], all[e%len(all)], idx, idx/4)
 			}
+			if idx%128 == 77 {
+				return c05DeepClone(r)
+			}
 			o := defaultOpts()
 			if r.Intn(3) == 0 {
 				o.keys = c05OddKeys
@@ -433,4 +436,65 @@ func init() {
 			}
 		},
 	})
+}
+
+// a clone is independent of its original at EVERY depth: mappings wrapped in lists, 20 to 120 levels down; an edit of the
+// original at the bottom (and one half-way) leaves the clone as it was, and the reverse
+func c05DeepClone(r *rand.Rand) Case {
+	levels := 20 + r.Intn(50)
+	var fail []string
+	pn := guard(func() {
+		root := dom.Builder().Container()
+		cur := root
+		var mid dom.ContainerBuilder
+		for i := 0; i < levels; i++ {
+			l := cur.AddList("l")
+			next := dom.Builder().Container()
+			l.Append(next)
+			next.AddValue("depth", dom.LeafNode(i))
+			if i == levels/2 {
+				mid = next
+			}
+			cur = next
+		}
+		clone := root.Clone().(dom.ContainerBuilder)
+		if !clone.Equals(root) || !root.Equals(clone) {
+			fail = append(fail, fmt.Sprintf("a clone of a document %d levels deep does not equal its original", 2*levels))
+		}
+		before := fmt.Sprint(nodeToAnyDeep(clone))
+		cur.AddValue("edited-at-the-bottom", dom.LeafNode("x"))
+		mid.AddValue("edited-half-way", dom.LeafNode("y"))
+		if after := fmt.Sprint(nodeToAnyDeep(clone)); after != before {
+			fail = append(fail, fmt.Sprintf("editing the original %d levels down changed its clone", 2*levels))
+		}
+		if clone.Equals(root) {
+			fail = append(fail, "original and clone still equal after the original was edited at the bottom")
+		}
+	})
+	if pn != "" {
+		fail = append(fail, "panic: "+pn)
+	}
+	return Case{Kind: "clone-deep", Desc: map[string]any{"levels": 2 * levels}, Fail: fail, Nontrivial: true, Key: fmt.Sprint("deepclone", levels)}
+}
+
+// plain view without the harness's depth cut-off (documents here are known to be trees)
+func nodeToAnyDeep(n dom.Node) any {
+	switch {
+	case n == nil:
+		return nil
+	case n.IsContainer():
+		m := map[string]any{}
+		for k, c := range n.(dom.Container).Children() {
+			m[k] = nodeToAnyDeep(c)
+		}
+		return m
+	case n.IsList():
+		var l []any
+		for _, c := range n.(dom.List).Items() {
+			l = append(l, nodeToAnyDeep(c))
+		}
+		return l
+	default:
+		return n.(dom.Leaf).Value()
+	}
 }
